@@ -395,7 +395,10 @@ impl Workspace {
         }
         let bin = repo_bin("veryl").to_string_lossy().into_owned();
         let cpu = self.cpu.to_string();
-        let mut args: Vec<&str> = vec!["-c", &cpu, &bin, "test", "--format", "json", "--seed", "1", "--backend", self.backend];
+        // `nice -n -10` (effective for root only; otherwise a warning and
+        // unchanged priority): the pinned process cannot migrate away from a
+        // CPU another pinned job occupies — performance only
+        let mut args: Vec<&str> = vec!["-n", "-10", "taskset", "-c", &cpu, &bin, "test", "--format", "json", "--seed", "1", "--backend", self.backend];
         if self.four_state {
             args.push("--4state");
         }
@@ -414,7 +417,11 @@ impl Workspace {
         if self.min_bytes0 {
             env.push(("VERYL_DUT_REUSE_MIN_BYTES", "0"));
         }
-        let o = run_cmd("taskset", &args, &self.proj, &env, Duration::from_secs(400));
+        let t0 = std::time::Instant::now();
+        let o = run_cmd("nice", &args, &self.proj, &env, Duration::from_secs(400));
+        if std::env::var("C34_TIMING").is_ok() {
+            eprintln!("  run {} on cpu {}: {:.1}s", c.label, self.cpu, t0.elapsed().as_secs_f64());
+        }
         if o.timed_out {
             return Err("timeout".into());
         }
@@ -422,6 +429,61 @@ impl Workspace {
             let tail: String = o.stderr.lines().filter(|l| !l.contains("[INFO")).take(12).collect::<Vec<_>>().join("\n");
             format!("{e}; exit={:?} signal={:?}\n{tail}", o.code, o.signal)
         })
+    }
+}
+
+/// The least busy CPU that no concurrent case of this process uses (the
+/// machine is shared; a CPU on which another pinned process spins would make
+/// a run take minutes).  Performance only: the verdict does not depend on it.
+struct CpuGuard(u32);
+
+static CPUS_IN_USE: std::sync::Mutex<BTreeSet<u32>> = std::sync::Mutex::new(BTreeSet::new());
+
+fn cpu_busy() -> Vec<(u64, u64)> {
+    // (busy, total) jiffies per cpu
+    let text = std::fs::read_to_string("/proc/stat").unwrap_or_default();
+    let mut v = vec![];
+    for l in text.lines() {
+        if l.starts_with("cpu") && !l.starts_with("cpu ") {
+            let f: Vec<u64> = l.split_whitespace().skip(1).filter_map(|x| x.parse().ok()).collect();
+            if f.len() >= 5 {
+                let total: u64 = f.iter().take(8).sum();
+                let idle = f[3] + f[4];
+                v.push((total - idle, total));
+            }
+        }
+    }
+    v
+}
+
+impl CpuGuard {
+    fn take(total: u32) -> CpuGuard {
+        let a = cpu_busy();
+        std::thread::sleep(Duration::from_millis(120));
+        let b = cpu_busy();
+        let mut used = CPUS_IN_USE.lock().unwrap();
+        let mut best: Option<(u64, u32)> = None;
+        for c in 0..total {
+            if used.contains(&c) {
+                continue;
+            }
+            let load = match (a.get(c as usize), b.get(c as usize)) {
+                (Some(x), Some(y)) if y.1 > x.1 => (y.0 - x.0) * 1000 / (y.1 - x.1),
+                _ => 500,
+            };
+            if best.map(|(l, _)| load < l).unwrap_or(true) {
+                best = Some((load, c));
+            }
+        }
+        let c = best.map(|(_, c)| c).unwrap_or(0);
+        used.insert(c);
+        CpuGuard(c)
+    }
+}
+
+impl Drop for CpuGuard {
+    fn drop(&mut self) {
+        CPUS_IN_USE.lock().unwrap().remove(&self.0);
     }
 }
 
@@ -473,10 +535,10 @@ struct CliProject {
 
 const STEMS: &[&str] = &["a", "zz", "m", "b", "k", "x9", "q", "top", "e", "w", "n0", "cnt"];
 
-fn gen_cli_project(d: &mut Draw, cc_ok: bool) -> CliProject {
+fn gen_cli_project(d: &mut Draw, cc_ok: bool, max_tests: usize) -> CliProject {
     let lib = gen_library(d);
     let pool = gen_param_pool(d, &lib);
-    let n = 3 + d.below_usize(6);
+    let n = 3 + d.below_usize(max_tests - 2);
     let mut tops = vec![];
     let mut names = vec![];
     for i in 0..n {
@@ -585,13 +647,15 @@ fn cli_evaluate(d: &mut Draw, p: &CliProject, alone: bool) -> Outcome {
         write_file(&proj.join(rel), text);
     }
     let total = std::thread::available_parallelism().map(|n| n.get()).unwrap_or(1) as u32;
+    let cpu_guard = CpuGuard::take(total);
     let ws = Workspace {
         _scratch: scratch,
         proj,
         xdg,
         backend: p.backend,
         four_state: p.four_state,
-        cpu: d.below(total),
+        // which CPU the process is pinned to has no meaning for the case
+        cpu: cpu_guard.0,
         min_bytes0: p.min_bytes0,
     };
     let mut sorted = p.names.clone();
@@ -691,10 +755,17 @@ fn cli_evaluate(d: &mut Draw, p: &CliProject, alone: bool) -> Outcome {
     Outcome::pass(hash_str(&all_text), p.nontrivial, classes, format!("{all_text}// backend {} forced order {forced:?}", p.backend))
 }
 
-fn cli_case(d: &mut Draw, cc_ok: bool) -> Outcome {
-    let p = gen_cli_project(d, cc_ok);
-    let alone = d.chance(1, 3);
-    cli_evaluate(d, &p, alone)
+fn cli_case(d: &mut Draw, cc_ok: bool, quick: bool) -> Outcome {
+    // quick tier: at most 6 tests, no `--backend cc` projects (a synchronous
+    // `cc` run per function and test)
+    let p = gen_cli_project(d, cc_ok && !quick, if quick { 6 } else { 8 });
+    let alone = d.chance(1, if quick { 6 } else { 3 });
+    let t0 = std::time::Instant::now();
+    let o = cli_evaluate(d, &p, alone);
+    if std::env::var("C34_TIMING").is_ok() {
+        eprintln!("cli case: {} tests, backend {}, alone {alone}: {:.1}s", p.names.len(), p.backend, t0.elapsed().as_secs_f64());
+    }
+    o
 }
 
 /// Development aid: write the project generated from a pseudo-random choice vector.
@@ -709,7 +780,7 @@ pub fn dump(dir: &std::path::Path, n: u64) {
         })
         .collect();
     let mut d = Draw::new(choices);
-    let p = gen_cli_project(&mut d, true);
+    let p = gen_cli_project(&mut d, true, 8);
     for (rel, text) in &p.files {
         write_file(&dir.join(rel), text);
     }
@@ -749,15 +820,16 @@ pub fn run(ctx: &Ctx) {
     ctx.run_payloads("api-recorded", replay_api);
     ctx.run_payloads("cli-recorded", replay_cli);
     if only.is_empty() || only == "api" {
-        let n = std::env::var("C34_API_CASES").ok().and_then(|s| s.parse().ok()).unwrap_or(ctx.scale(200, 8000));
+        let n = std::env::var("C34_API_CASES").ok().and_then(|s| s.parse().ok()).unwrap_or(ctx.scale(130, 8000));
         ctx.run("api-tops", CaseCfg::cases(n).choices(6000).timeout_s(900).shrink_iters(60), |d| api_tops_case(d, cc_ok));
-        let n2 = std::env::var("C34_API_CASES").ok().and_then(|s| s.parse().ok()).unwrap_or(ctx.scale(120, 6000));
+        let n2 = std::env::var("C34_API_CASES").ok().and_then(|s| s.parse().ok()).unwrap_or(ctx.scale(80, 6000));
         ctx.run("api-designs", CaseCfg::cases(n2).choices(8000).timeout_s(900).shrink_iters(60), |d| api_designs_case(d, cc_ok));
     }
     if only.is_empty() || only == "cli" {
-        let n = std::env::var("C34_CLI_CASES").ok().and_then(|s| s.parse().ok()).unwrap_or(ctx.scale(30, 1500));
+        let n = std::env::var("C34_CLI_CASES").ok().and_then(|s| s.parse().ok()).unwrap_or(ctx.scale(10, 1500));
+        let quick = ctx.is_quick();
         let total = std::thread::available_parallelism().map(|n| n.get()).unwrap_or(1);
-        ctx.run("cli", CaseCfg::cases(n).choices(6000).threads(total.min(12)).shrink_iters(6).timeout_s(3000), |d| cli_case(d, cc_ok));
+        ctx.run("cli", CaseCfg::cases(n).choices(6000).threads(total.min(12)).shrink_iters(6).timeout_s(3000), |d| cli_case(d, cc_ok, quick));
     }
     ctx.finish(
         "exploration",
